@@ -1,6 +1,6 @@
 PROP = {
     "id": "C08",
-    "tie2": ["Tie2Hsms"],
+    "tie2": ["Tie2Hsms", "Tie2Responder"],
     "harness": "c08",
     "driver": "c08",
     "n_quick": 300,
